@@ -386,6 +386,13 @@ func (e *Enc) unop(x *ssa.UnOp) {
 			e.setVal(x, Sc{sub(bigLit(pow2(w)), add(e.sc(x.X), intLit(1)))})
 		}
 	case token.MUL:
+		if g, ok := x.X.(*ssa.Global); ok {
+			if t, isS := e.sentinelConst(g); isS {
+				// error sentinels are constants: their value does not depend on the heap
+				e.vals[x] = Sc{t}
+				break
+			}
+		}
 		l := e.ptrLoc(x.X)
 		e.nilCheck(l.Ref, x, "load")
 		v := e.load(e.cur, l)
@@ -759,4 +766,25 @@ func (e *Enc) zeroElems(base Term, elem types.Type) {
 			}
 		}
 	}
+}
+
+// sentinelConst: package-level error variables named Err*, EOF, Canceled or DeadlineExceeded are treated as
+// constants (non-nil, never reassigned): one SMT constant per variable, independent of the heap.
+func (e *Enc) sentinelConst(g *ssa.Global) (Term, bool) {
+	pt, ok := g.Type().Underlying().(*types.Pointer)
+	if !ok || pt.Elem().String() != "error" || g.Pkg == nil {
+		return Term{}, false
+	}
+	n := g.Name()
+	if !(strings.HasPrefix(n, "Err") || n == "EOF" || n == "Canceled" || n == "DeadlineExceeded") {
+		return Term{}, false
+	}
+	name := "gconst$" + sanitize(g.Pkg.Pkg.Path()+"."+n)
+	if !e.declSet[name] {
+		t := e.declare(name, SInt)
+		e.assumeGlobal(not(eq(t, intLit(0))), "error sentinel "+n+" is non-nil")
+		e.assumption("package-level error sentinels (Err*, EOF, Canceled, DeadlineExceeded) are non-nil constants, never reassigned")
+		return t, true
+	}
+	return Term{smtSym(name), SInt}, true
 }
